@@ -37,7 +37,8 @@ TRUSTED_BASE = [
 ASSUMPTIONS = [
     'the parser reads back from a message the unix_fds header field and the index values that _marshal wrote '
     '(C01-C03 round trip); in Lean this is the hypothesis of msgOK_of_callRemote / attribution_callRemote',
-    'handshake cases are judged only when the implementation did authenticate (authentication is C06 / C07)',
+    'a handshake case is not judged when the authenticator refused the handshake although it was handed its lines '
+    '(authentication is C06 / C07); missing or altered lines are judged',
     'descriptors of message i arrive in sending order, after those of earlier messages, each no later than the '
     'read that contains the last byte of message i; bytes arrive in order, cut arbitrarily',
     'the order that upstream marks unfixable (bytes of a message before its descriptors) is outside the property',
@@ -409,7 +410,7 @@ def observe(ctx, events, mode='binary', script='', linux=False):
             break
     ctx.impl_trace()
     return {'log': p.log, 'buffer': bytes(p._buffer).hex(), 'queue': [int(x) for x in p._receivedFDs],
-            'crashed': crashed,
+            'crashed': crashed, 'effects': list(getattr(p, 'effects', [])),
             'script': ''.join(wrap.script) if wrap is not None else script,
             'auth': 1 if p._authenticated else 0, 'closed': 1 if p.transport.disconnecting else 0}
 
@@ -453,8 +454,8 @@ def judge(sc, o):
         pos += len(m['raw']) // 2
         if pos <= len(total):
             done += 1
-    if sc.get('mode', 'binary') != 'binary' and not o['auth']:
-        return None, None      # the handshake did not authenticate: authentication is not C20's business
+    if sc.get('mode', 'binary') != 'binary' and c04.refused_by_authenticator(sc, o['auth'], o['effects'], o['script']):
+        return None, None      # the authenticator refused the handshake: authentication is not C20's business
     if o['crashed']:
         return 'receiver-exception', '%s escaped while descriptors were queued' % o['crashed']
     if [d['raw'] for d in o['log']] != [m['raw'] for m in msgs[:done]]:
@@ -502,7 +503,8 @@ class Batch:
                 il = impl_line(o, sc.get('mode', 'binary'))
                 if out[k] != il and not o['crashed']:
                     ctx.disagree(stream, sc, c04.clip(out[k]), c04.clip(il))
-            if oracle and sc.get('mode', 'binary') != 'binary' and not o['auth']:
+            if oracle and sc.get('mode', 'binary') != 'binary' and c04.refused_by_authenticator(
+                    sc, o['auth'], o['effects'], o['script']):
                 ctx.stat('%s:not-authenticated(S3 only)' % stream)
             if oracle:
                 key, what = judge(sc, o)
